@@ -73,7 +73,7 @@ def neutralised(sc):
         if w and w[0] in (fw, lw):
             txt = parts[c["part"]]
             i = txt.index(w[0])
-            parts[c["part"]] = txt[:i] + "q" * len(w[0]) + txt[i + len(w[0]):]
+            parts[c["part"]] = txt[:i] + "q" * len(w[0].encode("utf8")) + txt[i + len(w[0]):]
     return "".join(parts)
 
 
